@@ -79,6 +79,8 @@ USE(map_string_i32, std::map<std::string, int32_t>)
 USE(map_i32_vec_string, std::map<int32_t, std::vector<std::string>>)
 USE(refl, igris_verif_refl)
 USE(nested, igris_verif_nested)
+USE(vec_nested, std::vector<igris_verif_nested>)
+USE(vec_map_i32_i32, std::vector<std::map<int32_t, int32_t>>)
 
 // counted raw buffers (igris::buffer / char* + length) of the archive itself
 void igris_verif_w_cbuf(igris::archive::binary_serializer_basic &w,
